@@ -6,7 +6,7 @@ CONSTANTS
   Resp2Set <- Resp2All
   OrigSet <- OrigAll
   ResSet <- ResAll
-  Budget = 2
+  Budget = 3
   PairBonus = 1
   Fault = "none"
 INVARIANTS TypeOK Fidelity Authenticity ResponseHandling Destination RouteUnambiguous Emit
